@@ -183,12 +183,16 @@ void FnEmitter::emitCall(const CallBase& CB) {
     }
     if (n == "vf_assume") { body << "  VF_ASSUME(" << val(CB.getArgOperand(0)) << ");\n"; return; }
     if (n == "_setjmp" || n == "setjmp" || n == "__sigsetjmp") {
-      if (step) refuse("setjmp inside a thread body");
+      // (in a thread body everything is inlined into one function, so setjmp/longjmp are a local label and goto)
       body << "  " << lname[&CB] << " = 0;\n  vf_after_setjmp: ;\n";
       return;
     }
     if (n == "longjmp" || n == "_longjmp" || n == "siglongjmp" || n == "__longjmp_chk") {
-      if (step) refuse("longjmp inside a thread body");
+      if (step) {
+        if (!setjmpVal) refuse("longjmp in a thread body whose entry function does not call setjmp");
+        body << "  " << lname[setjmpVal] << " = (uint32_t)" << val(CB.getArgOperand(1)) << "; goto vf_after_setjmp;\n";
+        return;
+      }
       body << "  vf_unwinding = 1; vf_jmpval = (uint32_t)" << val(CB.getArgOperand(1)) << ";\n";
       if (usesSetjmp) body << "  goto vf_setjmp_landing;\n";
       else if (F.getReturnType()->isVoidTy()) body << "  return;\n";
